@@ -298,7 +298,7 @@ pub fn run(run: &Run) {
     let sane = || prop_oneof![3 => Just(F::One), 1 => Just(F::Zero), 3 => (0.0f64..5.0).prop_map(F::Val)];
     let weights = prop_oneof![3 => [sane(), sane(), sane(), sane()], 1 => [fpick(), fpick(), fpick(), fpick()]];
     let case = (prop::collection::vec(cand(), 0..60), prop_oneof![3 => 0u8..=8, 1 => 9u8..=20], weights, any::<u64>(), any::<bool>()).prop_map(|(cands, k, weights, seed, via_engine)| Case { cands, k, weights, seed, via_engine });
-    run.prop("select", run.tier.pick(4000, 80_000), sh, case, run_case);
+    run.prop("select", run.tier.pick(400000, 3200000), sh, case, run_case);
     let pos = || prop_oneof![2 => Just(F::One), 1 => Just(F::Tiny), 1 => Just(F::Huge), 1 => Just(F::Inf), 4 => (0.001f64..50.0).prop_map(F::Val)];
     let wv = prop_oneof![
         5 => prop::collection::vec(pos(), 1..40),
@@ -307,9 +307,9 @@ pub fn run(run: &Run) {
         1 => prop::collection::vec(prop_oneof![Just(F::NaN), Just(F::One), Just(F::Inf)], 20..60),
     ];
     let scase = (wv, 0u8..45, any::<u64>()).prop_map(|(weights, k, seed)| { let k = k.min(weights.len() as u8 + 1); SCase { weights, k, seed } });
-    run.prop("sampler", run.tier.pick(6000, 150_000), sh, scase, run_sampler);
+    run.prop("sampler", run.tier.pick(600000, 6000000), sh, scase, run_sampler);
     let stat = (any::<u64>(), 1u8..=12, 8u8..=40).prop_map(|(seed, light, ratio)| StatCase { seed, light, ratio });
-    run.prop("sampler_stat", run.tier.pick(60, 1500), sh, stat, run_stat);
+    run.prop("sampler_stat", run.tier.pick(6000, 60000), sh, stat, run_stat);
 }
 
 pub fn replay(run: &Run, sub: &str, case: &Value) -> Option<bool> {
